@@ -107,6 +107,7 @@ type BackupCase struct {
 	Script  []string `json:"script"`
 	Writes  []int    `json:"writes"`   // instants of database writes, in units of 100ms (+50ms)
 	CancelS int      `json:"cancel_s"` // the server context is cancelled at this second (+20ms)
+	OffsetS int      `json:"offset_s"` // the loop starts this many seconds (+7ms) after a whole minute of the (virtual) wall clock
 }
 
 var spin = h.NewSpinWatch("C17", "backup", "periodicBackup", 10, 2*time.Second)
@@ -126,6 +127,10 @@ func runC17Bubble(dir string, c BackupCase, info *h.Info) *h.Violation {
 	d, err := dbx.OpenDiscard(p, key)
 	if err != nil {
 		return h.V("harness", "open: %v", err)
+	}
+	if c.OffsetS > 0 {
+		time.Sleep(time.Duration(c.OffsetS)*time.Second + 7*time.Millisecond) // the bubble's clock starts on a whole minute
+		info.Class("started-off-the-minute")
 	}
 	fs := &fakeS3{t0: time.Now(), script: c.Script, release: make(chan struct{})}
 	cl := s3.New(s3.Options{Region: "us-east-1", Credentials: credentials.NewStaticCredentialsProvider("AK", "SK", ""), HTTPClient: fs,
@@ -298,6 +303,7 @@ func genBackupCase(rt *rapid.T) BackupCase {
 	c := BackupCase{
 		Script:  rapid.SliceOfN(rapid.SampledFrom([]string{"ok", "ok", "ok", "fail", "neterr", "block", "hang", "slow75", "slow90", "slow130"}), 0, 6).Draw(rt, "script"),
 		CancelS: rapid.SampledFrom([]int{0, 1, 30, 59, 61, 100, 125, 200, 400, 700, 1500}).Draw(rt, "cancel"),
+		OffsetS: rapid.SampledFrom([]int{0, 0, 13, 45, 59}).Draw(rt, "offset"),
 	}
 	ws := rapid.SliceOfN(rapid.IntRange(0, 7000), 0, 8).Draw(rt, "writes")
 	if rapid.IntRange(0, 3).Draw(rt, "burst") == 0 && len(ws) > 0 {
